@@ -45,6 +45,9 @@ def formula(e):
         return ("atom", norm(e))
     if isinstance(e, ast.Call) and isinstance(e.func, ast.Name) and e.func.id == "bool" and len(e.args) == 1:
         return formula(e.args[0])
+    if isinstance(e, ast.Call) and isinstance(e.func, ast.Name) and e.func.id in ("isinstance", "issubclass") and len(e.args) == 2 and isinstance(e.args[1], ast.Tuple) and e.args[1].elts:
+        # isinstance(x, (A, B)) is isinstance(x, A) or isinstance(x, B)
+        return ("or", [("atom", norm(ast.Call(func=e.func, args=[e.args[0], c], keywords=[]))) for c in e.args[1].elts])
     if isinstance(e, ast.IfExp):
         c, a, b = formula(e.test), formula(e.body), formula(e.orelse)
         return ("or", [("and", [c, a]), ("and", [("not", c), b])])
